@@ -90,7 +90,7 @@ func respell(v any, mask int, top bool) any {
 func init() {
 	// ------------------------------------------------------------------ C12
 	register("C12", func(c *engine.Ctx) {
-		c.Rule = "random schemas (all features, titles, numeric-looking keys) x random option sets; each generated: three times in one process, from files whose objects have their keys in three different random orders, from a relocated directory, and (a sample) by the CLI binary in separate processes; all outputs must be byte-identical under the same names. Colliding names: sets of definition / property names that normalise to one identifier, with different content, generated 30 times in one process with shuffled key orders. Resolve-extension order: an extension-less reference with candidate files .json / .yaml / .yml of different content, three orders of the extension list: the first listed wins, 30 generations each. Mapping order: sets of 1..4 schema mappings whose ids are pairwise distinct but nearly equal to the schema's $id (trailing # or /, letter case, trailing space, prefix) in EVERY slice order (main.go takes the order from a map): identical outputs, equal to the model's route / rootOverride. Command line in separate processes: the extension-less reference with 2-3 --resolve-extension flags in six orders and spellings (first listed wins where it has its dot), and one invocation with three mapped ids, 13 processes each, byte-identical. Distinct = distinct (option set, schema shape)."
+		c.Rule = "random schemas (all features, titles, numeric-looking keys) x random option sets; each generated: three times in one process, from files whose objects have their keys in three different random orders, from a relocated directory, and (a sample) by the CLI binary in separate processes; all outputs must be byte-identical under the same names. Colliding names: sets of definition / property names that normalise to one identifier, with different content, generated 30 times in one process with shuffled key orders. Repeated branches: allOf / anyOf listing one definition twice next to a branch that disagrees on first-wins keywords, 30 generations each. Resolve-extension order: an extension-less reference with candidate files .json / .yaml / .yml of different content, three orders of the extension list: the first listed wins, 30 generations each. Mapping order: sets of 1..4 schema mappings whose ids are pairwise distinct but nearly equal to the schema's $id (trailing # or /, letter case, trailing space, prefix) in EVERY slice order (main.go takes the order from a map): identical outputs, equal to the model's route / rootOverride. Command line in separate processes: the extension-less reference with 2-3 --resolve-extension flags in six orders and spellings (first listed wins where it has its dot), and one invocation with three mapped ids, 13 processes each, byte-identical. Distinct = distinct (option set, schema shape)."
 		c.Proofs([]string{"GJS.Props.C12"}, []string{
 			"GJS.Props.C12.sortedKeys_perm", "GJS.Props.C12.alookup_perm", "GJS.Props.C12.visited_perm", "GJS.Props.C12.parseTypeList_order_free",
 			"GJS.Props.C12.route_perm", "GJS.Props.C12.rootOverride_perm", "GJS.Props.C12.route_exact",
@@ -208,6 +208,40 @@ func init() {
 			}
 		}
 		c.Programs += 2 * len(collSets)
+		// the same definition listed TWICE among the branches of an allOf / anyOf, next to a branch that disagrees with
+		// it on first-wins keywords (description, a shared member's limits): whatever de-duplicates or indexes the
+		// branches must keep their order — 30 generations each
+		for ri, kw := range []string{"allOf", "anyOf"} {
+			for oi, order := range [][]string{{"Base", "Ext", "Base"}, {"Ext", "Base", "Ext"}, {"Base", "Base", "Ext"}, {"Ext", "Base", "Base", "Ext"}} {
+				defs := sgen.M{
+					"Base": sgen.M{"type": "object", "description": "Base part.", "properties": sgen.M{"id": sgen.M{"type": "string", "minLength": 3, "description": "base id"}}, "required": []any{"id"}},
+					"Ext":  sgen.M{"type": "object", "description": "Ext part.", "properties": sgen.M{"id": sgen.M{"type": "string", "minLength": 5, "description": "ext id"}, "more": sgen.M{"type": "integer"}}, "required": []any{"id"}},
+				}
+				var branches []any
+				for _, d := range order {
+					branches = append(branches, sgen.M{"$ref": "#/$defs/" + d})
+				}
+				root := sgen.M{"$id": "urn:c12", "type": "object", "$defs": defs, "properties": sgen.M{"thing": sgen.M{kw: branches}}}
+				content := core.MustJSON(root)
+				cfg := core.DefaultCfg()
+				cfg.Tags = []string{"json"}
+				dir := filepath.Join(tmp, fmt.Sprintf("rep%d-%d", ri, oi))
+				ref := genSrc(dir, "schema.json", content, cfg, "urn:c12")
+				for rep := 0; rep < 30; rep++ {
+					got := genSrc(filepath.Join(dir, fmt.Sprint(rep)), "schema.json", content, cfg, "urn:c12")
+					c.Eval(fmt.Sprintf("repeated-branch|%s|%d|%v", kw, oi, got == ref))
+					if got != ref {
+						fails++
+						if fails <= 3 {
+							c.Fail("oracle", fmt.Sprintf("%s listing a definition twice (%v): repetition %d of the same generation gives other bytes", kw, order, rep),
+								M{"kind": "relational", "variant": "repeat", "cfg": cfg, "schema": string(content), "reference_output": clip(ref, 1500), "variant_output": clip(got, 1500)}, false)
+						}
+						break
+					}
+				}
+			}
+		}
+		c.Programs += 8
 		// an extension-less reference with SEVERAL candidate files of different content: the first listed resolve
 		// extension wins, every time (30 generations per order of the extension list)
 		for oi, exts := range [][]string{{".json", ".yaml"}, {".yaml", ".json"}, {".yml", ".json", ".yaml"}} {
@@ -303,7 +337,7 @@ func init() {
 
 	// ------------------------------------------------------------------ C13
 	register("C13", func(c *engine.Ctx) {
-		c.Rule = "random schemas (all features incl. $defs/$ref, titles, numeric- and boolean-looking property names) x every combination of the re-spellings {$id->id, $defs->definitions, #/$defs/->#/definitions/ (and upper-case prefix), type string -> one-element list} x {JSON, block YAML, flow YAML with non-string mapping keys, JSON with every non-ASCII character escaped, the JSON bytes (plain and escaped) under a .yaml name, YAML with every scalar double-quoted}; descriptions, enum members and defaults with text that needs escaping (non-ASCII, apostrophe, quotes, backslash, DEL, U+1F600); plus true vs {} as the anything-schema for additionalProperties / items; the root type name is fixed by --schema-root-type so that the file extension does not enter; plus one document whose structurally equal sites (a nested path colliding with a flat name, an allOf branch, array items) spell the same pointer differently (#/$defs/, #/definitions/, #/$Defs/, #/DEFINITIONS/; all 16 pairs under either container keyword). All outputs must be byte-identical to the canonical JSON spelling's. Distinct = distinct (re-spelling mask, format, schema shape)."
+		c.Rule = "random schemas (all features incl. $defs/$ref, titles, numeric- and boolean-looking property names) x every combination of the re-spellings {$id->id, $defs->definitions, #/$defs/->#/definitions/ (and upper-case prefix), type string -> one-element list} x {JSON, block YAML, flow YAML with non-string mapping keys, JSON with every non-ASCII character escaped, the JSON bytes (plain and escaped) under a .yaml name, YAML with every scalar double-quoted}; descriptions, enum members and defaults with text that needs escaping (non-ASCII, apostrophe, quotes, backslash, DEL, U+1F600); strings that look like other scalars (1e3, 0x10, 1_000, .inf, yes, ~, 2001-01-01, 1:20, …) as enum members, default, title, pattern and required property name; plus true vs {} as the anything-schema for additionalProperties / items; the root type name is fixed by --schema-root-type so that the file extension does not enter; plus one document whose structurally equal sites (a nested path colliding with a flat name, an allOf branch, array items) spell the same pointer differently (#/$defs/, #/definitions/, #/$Defs/, #/DEFINITIONS/; all 16 pairs under either container keyword). All outputs must be byte-identical to the canonical JSON spelling's. Distinct = distinct (re-spelling mask, format, schema shape)."
 		c.Proofs([]string{"GJS.Props.C13", "GJS.Props.C10"}, []string{
 			"GJS.Props.C13.type_string_or_list", "GJS.Props.C13.true_is_empty_schema", "GJS.Props.C13.id_fallback", "GJS.Props.C13.defs_fallback",
 			"GJS.Props.C10.extractRef_prefix_equiv",
@@ -326,6 +360,18 @@ func init() {
 			}
 			if c.R.P(0.4) {
 				props[core.Pick(c.R, []string{"1", "true", "2.5", "007", "no"})] = sgen.M{"type": "string"}
+			}
+			if c.R.P(0.5) {
+				// STRINGS that look like other YAML / JSON scalars (exponent forms, hex, octal, underscores, signs, special
+				// floats, booleans of YAML 1.1, null, dates, sexagesimals): as enum members, default, title, pattern, a
+				// required property name — a string stays a string in every spelling
+				looks := []string{"1e3", "7e21", "-2E+5", "1E-2", "0x10", "0o17", "017", "1_000", "+1", ".5", "5.", "1.0", "-0", "NaN", ".inf", "-.INF", "yes", "No", "on", "OFF", "y", "n", "null", "~", "Null", "2001-01-01", "12:30:45", "1:20", "true", "False", "0b101", "1e400", "٣"}
+				ls := core.Sample(c.R, looks, 4)
+				props["looks"] = sgen.M{"type": "string", "enum": toAnyS(ls[:3]), "default": ls[0], "title": ls[1]}
+				props["pat"] = sgen.M{"type": "string", "pattern": ls[2], "description": ls[3]}
+				props[ls[3]] = sgen.M{"type": "string", "default": ls[2]}
+				req, _ := root["required"].([]any)
+				root["required"] = append(req, ls[3])
 			}
 			if c.R.P(0.3) {
 				props["anything"] = sgen.M{"type": "array", "items": true}
